@@ -22,6 +22,7 @@ _PROG = None
 _MOD = None
 _PROP = None
 _BASE: set[str] = set()
+_MUTS: list = []
 
 
 def _apply(prog: Program, edits) -> Program | None:
@@ -35,6 +36,62 @@ def _apply(prog: Program, edits) -> Program | None:
     return Program(srcs)
 
 
+def patch_edits(patch_text: str):
+    """(file, old text, new text) per hunk of a unified diff (context lines included on both sides)"""
+    edits = []
+    path = None
+    old: list[str] = []
+    new: list[str] = []
+
+    def flush():
+        if path and (old or new):
+            edits.append((path, ''.join(old), ''.join(new)))
+
+    for line in patch_text.splitlines(keepends=True):
+        if line.startswith('+++ '):
+            flush()
+            old, new = [], []
+            path = line[4:].strip()
+            path = path[2:] if path.startswith('b/') else path
+        elif line.startswith('--- ') or line.startswith('diff ') or line.startswith('index '):
+            continue
+        elif line.startswith('@@'):
+            flush()
+            old, new = [], []
+        elif path is None:
+            continue
+        elif line.startswith('+'):
+            new.append(line[1:])
+        elif line.startswith('-'):
+            old.append(line[1:])
+        elif line.startswith(' '):
+            old.append(line[1:])
+            new.append(line[1:])
+        elif line.startswith('\\'):
+            continue
+    flush()
+    return edits
+
+
+def seeded_mutants(prop: str) -> list[dict]:
+    """the confirmed changes of /verif/seeded that belong to this property, as in-memory edits"""
+    import glob
+    import json
+
+    here = os.path.dirname(os.path.dirname(os.path.abspath(__file__)))
+    out = []
+    for d in sorted(glob.glob(os.path.join(here, 'seeded', f'{prop}_*'))):
+        try:
+            meta = json.load(open(os.path.join(d, 'meta.json'), encoding='utf-8'))
+            patch = open(os.path.join(d, 'patch.diff'), encoding='utf-8').read()
+        except OSError:
+            continue
+        if not meta.get('valid', True):
+            continue
+        out.append({'name': f'seeded/{os.path.basename(d)}: {meta.get("title", "")[:90]}', 'edits': patch_edits(patch)})
+    return out
+
+
 def _edits(m: dict):
     if 'edits' in m:
         return [tuple(e) for e in m['edits']]
@@ -44,13 +101,13 @@ def _edits(m: dict):
 def _run_one(i: int):
     from .variants import TRANSFORMS, variant
 
-    local = _MOD.MUTANTS + getattr(_MOD, 'NEUTRAL', [])
+    local = _MUTS + getattr(_MOD, 'NEUTRAL', [])
     if i >= len(local):
         gname = list(TRANSFORMS)[i - len(local)]
         m = {'name': f'whole package: {gname} ({(TRANSFORMS[gname]().__doc__ or "").strip()})'}
     else:
         m = local[i]
-    neutral = i >= len(_MOD.MUTANTS)
+    neutral = i >= len(_MUTS)
     try:
         v = variant(_PROG, gname) if i >= len(local) else _apply(_PROG, _edits(m))
         if v is None:
@@ -79,10 +136,11 @@ def _run_one(i: int):
 
 
 def run_selftest(prog: Program, prop: str, mod) -> dict:
-    global _PROG, _MOD, _PROP, _BASE
+    global _PROG, _MOD, _PROP, _BASE, _MUTS
     from .variants import TRANSFORMS
 
-    muts = getattr(mod, 'MUTANTS', [])
+    muts = list(getattr(mod, 'MUTANTS', [])) + seeded_mutants(prop)
+    _MUTS = muts
     neut = list(getattr(mod, 'NEUTRAL', [])) + [{'name': g} for g in TRANSFORMS]
     base = Ctx(prog, prop, 'thorough')
     mod.run(base)
